@@ -11,7 +11,7 @@ import (
 // an update or delete of an absent component changes nothing and is relayed to no one, an accepted change
 // shows up in the list, and removing an entity removes all of its components.
 func VerifC12Handlers() {
-	s := newStepWorld(stepShape{mods: 0, preset: verifnd.Choice(3)})
+	s := newStepWorld(stepShape{mods: 0, preset: verifnd.Choice(3), prior: verifnd.Bool()})
 	p1, view := s.probe(s.a0.sid)
 	p1.expectSubscribe(s.tReg)
 	s.w.drainAll()
